@@ -501,3 +501,28 @@ class Rewriter:
                 raise Unsupported('unknown rewrite rule ' + r)
             text = fn(text)
         return text
+
+    # ---- Wmutself: by-value `mut self` receiver -> fresh `let mut` local (body half) ------------------------------
+    def wmutself(self, text):
+        """Verus: "The verifier does not yet support the following Rust feature: mut self".
+        `fn f(mut self, ..) -> T { B }` is by definition `fn f(self, ..) -> T { let mut self__ = self; B' }` where B' is
+        B with every token `self` renamed to `self__` (a `mut` binding of a by-value parameter is a fresh mutable local
+        initialised by moving the argument in).  This rule is the BODY half: it renames the `self` tokens (never `Self`,
+        never inside strings/comments) and makes `let mut self__ = self;` the first statement.  The SIGNATURE half is
+        stated at the use site: sigsub="mut self=>self".  Refuses bodies with nested items (`fn`/`impl`), where `self`
+        could mean something else.  Used by unit `opts` (consuming option builders of client/opts.rs)."""
+        m = mask(text)
+        ob = m.find('{')
+        if ob < 0:
+            raise Unsupported('Wmutself: no function body')
+        if re.search(r'\b(fn|impl)\b', m):
+            raise Unsupported('Wmutself: nested item in body')
+        if re.search(r'\bself__\b', m):
+            raise Unsupported('Wmutself: name self__ already used')
+        out = text
+        for mm in reversed(list(re.finditer(r'\bself\b', m))):
+            if mm.start() > ob:
+                out = out[:mm.start()] + 'self__' + out[mm.end():]
+        out = out[:ob + 1] + '\n        let mut self__ = self;' + out[ob + 1:]
+        self.hit('Wmutself')
+        return out
